@@ -610,10 +610,11 @@ def r01_l(prog: Program, chk: Check) -> None:
 
     chk.rule(
         "R01.l",
-        "an update carried around a loop is not limited to the literals of the iterations that were visited, as a finite model: NameCheckVisitor.visit_AugAssign is interpreted "
-        "from its AST with the operator result stubbed (a literal int, a literal str, a union of literals, a typed value) for a name and for an attribute target, inside and "
+        "an update carried around a loop is not limited to the literals of the iterations that were visited, as a finite model: NameCheckVisitor.visit_AugAssign and visit_Assign "
+        "(with the helpers they call) are interpreted from their AST with the computed value stubbed (a literal int, a literal str, a union of literals, a typed value) for "
+        "`i += 1`, `self.i += 1`, `i = i + 1` and `i = j + 1`, inside and "
         "outside a loop (the function scope's current_loop_scopes, as FunctionScope.loop_scope maintains it): inside a loop the value written to a name contains every object of "
-        "the literal's type - the body is visited a fixed number of times, `i += 1` runs any number of times - and outside a loop the literal is kept",
+        "the literal's type - the body is visited a fixed number of times, `i += 1` runs any number of times - and outside a loop, and for an assignment that does not read its own target, the literal is kept",
         floor=2,
     )
     ncv = prog.cls("NameCheckVisitor")
@@ -662,11 +663,21 @@ def r01_l(prog: Program, chk: Check) -> None:
     ]
     narrow, lost, crashes = [], [], []
     n = 0
+    assign_fn = ncv.methods.get("visit_Assign")
+    if assign_fn is None:
+        raise AnchorError("NameCheckVisitor.visit_Assign not found")
+    stubbed = {"composite_from_node", "composite_from_name", "_visit_binop_internal", "visit", "_generic_visit_list", "_show_error_if_checking"}
+    method_defs = {}
+    for f in (fn, assign_fn):
+        for c in ast.walk(f):
+            if isinstance(c, ast.Call) and isinstance(c.func, ast.Attribute) and isinstance(c.func.value, ast.Name) and c.func.value.id == "self" and c.func.attr in ncv.methods and c.func.attr not in stubbed:
+                method_defs[("NameCheckVisitor", c.func.attr)] = ncv.methods[c.func.attr]
+    statements = [("i += 1", "i"), ("self.i += 1", "self.i"), ("i = i + 1", "i"), ("i = j + 1", "other")]
     for label, result, typ in results:
-        for target_src in ("i", "self.i"):
+        for stmt_src, target_src in statements:
             for in_loop in (True, False):
                 n += 1
-                node = ast.parse(f"{target_src} += 1").body[0]
+                node = ast.parse(stmt_src).body[0]
                 assigned = []
                 scope = Obj("FunctionScope", current_loop_scopes=[{}] if in_loop else [])
 
@@ -679,12 +690,13 @@ def r01_l(prog: Program, chk: Check) -> None:
                     "NameCheckVisitor", composite_from_node=lambda nd: Obj("Composite", value=typed(int)), composite_from_name=lambda nd, force_read=False: Obj("Composite", value=typed(int)),
                     _visit_binop_internal=lambda *a, result=result, **k: result, scopes=Obj("StackedScopes", current_scope=lambda scope=scope: scope),
                     yield_checker=Obj("YieldChecker", check_yield_result_assignment=lambda y: Obj("ContextManager", __enter__=lambda: None, __exit__=lambda exc=None: None)),
-                    visit=lambda nd: None,
+                    visit=lambda nd, result=result: result, _generic_visit_list=lambda nodes: None, current_enum_members=None, current_function_name="f",
                 )
-                it = Interp({}, {}, (), {"Composite": lambda a: Obj("Composite", value=a[0]), "AnyValue": lambda a: Obj("AnyValue"), "KnownValue": lambda a: known(a[0]), "TypedValue": lambda a: typed(a[0]), "flatten_values": flatten, "unite_values": unite}, hook, {}, {}, {"ast": ast, "qcore": Obj("qcore", override=override), "AnySource": Obj("AnySource", inference=Sym("inference")), "__native_getattr__": True})
-                d = {"statement": f"{target_src} += 1", "operator result": label, "inside a loop": in_loop}
+                it = Interp({}, {}, (), {"is_hashable": lambda a: False, "Composite": lambda a: Obj("Composite", value=a[0]), "AnyValue": lambda a: Obj("AnyValue"), "KnownValue": lambda a: known(a[0]), "TypedValue": lambda a: typed(a[0]), "flatten_values": flatten, "unite_values": unite}, hook, method_defs, {}, {"ast": ast, "qcore": Obj("qcore", override=override), "AnySource": Obj("AnySource", inference=Sym("inference")), "__native_getattr__": True})
+                d = {"statement": stmt_src, "value computed": label, "inside a loop": in_loop}
+                entry = fn if isinstance(node, ast.AugAssign) else assign_fn
                 try:
-                    it.call_def(fn, [self_obj, node], fn)
+                    it.call_def(entry, [self_obj, node], entry)
                 except Unsupported as u:
                     raise AnchorError(f"visit_AugAssign cannot be modelled: {u}")
                 except (AssertionFailed, PyRaise, ModelError) as e:
@@ -693,6 +705,11 @@ def r01_l(prog: Program, chk: Check) -> None:
                 if len(assigned) != 1:
                     raise AnchorError(f"visit_AugAssign assigned {len(assigned)} values in the model")
                 v = assigned[0]
+                if target_src == "other":
+                    # `i = j + 1` does not feed on itself: the literal stays, also in a loop
+                    if result._kind != "TypedValue" and covers(v, typ):
+                        lost.append({**d, "assigned": typ.__name__})
+                    continue
                 if in_loop and target_src == "i" and not covers(v, typ):
                     narrow.append({**d, "assigned": "a value that does not contain every " + typ.__name__})
                 if not in_loop and result._kind != "TypedValue" and covers(v, typ):
